@@ -1,16 +1,27 @@
 #!/bin/bash
 # Apply each mutation to a scratch copy of the snapshot and run the quick check against it.
-# usage: mutation_tests/C14/run.sh [m1 m2 …]     (run from the framework root)
-SNAP=${VERIF_SNAP:-/tmp/work/repo_snap3}
+# usage: mutation_tests/C14/run.sh [m1 m2 … | revert:<fix commit>]     (run from the framework root)
+SNAP=${VERIF_SNAP:-/tmp/work/repo_snap6}
 MUT=/tmp/work/mut_C14
 HERE=$(cd "$(dirname "$0")" && pwd)
 ROOT=$(cd "$HERE/../.." && pwd)
 cd "$ROOT"
-ms=${@:-m1 m2 m3 m4 m5 m6 m7}
+ms=${@:-m1 m2 m3 m4 m5 m6 m7 m8}
+restore_pins() {
+  VERIF_REPO="$SNAP" /venv/bin/python -c "
+import sys; sys.path.insert(0,'.')
+from tools import py2lean; py2lean.regenerate(only=['Compose'])" 2>/dev/null
+}
 for m in $ms; do
+  restore_pins   # a mutation that breaks the pin extraction leaves the previous Generated file in place
   rm -rf "$MUT"; cp -r "$SNAP" "$MUT"
   find "$MUT" -name __pycache__ -prune -exec rm -rf {} + 2>/dev/null
-  (cd "$MUT" && patch -s -p1 < "$HERE/$m.diff") || { echo "$m: patch failed"; continue; }
+  if [[ "$m" == revert:* ]]; then
+    # revert a fix: commit on the scratch copy (regression test for a repaired defect)
+    (cd "$MUT" && git show "${m#revert:}" | patch -s -R -p1) || { echo "$m: revert failed"; continue; }
+  else
+    (cd "$MUT" && patch -s -p1 < "$HERE/$m.diff") || { echo "$m: patch failed"; continue; }
+  fi
   rm -rf replays/C14
   out=$(VERIF_REPO="$MUT" ./check C14 quick 2>&1 | grep -v "conda" )
   echo "=== $m"
@@ -28,6 +39,8 @@ if r["kind"] == "failing-input":
             print("   ---", n); print("      " + t.strip().replace("\n", "\n      "))
     else:
         print("   input:", json.dumps({k: c[k] for k in c if k not in ("recipe",)})[:500])
+    for n, t in (c.get("extra") or {}).items():
+        print("   --- (data file)", n, repr(t))
     for b in r.get("broken_ties", [])[:4]:
         print("   broken:", b["kind"], b["name"], b["detail"][:160].replace("\n", " "))
 else:
